@@ -2,6 +2,7 @@ package nodis
 
 import (
 	"errors"
+	"fmt"
 	"log"
 	"os"
 	"os/signal"
@@ -220,13 +221,24 @@ func (n *Nodis) Serve(addr string) error {
 		log.Printf("Nodis closed %v \n", n.Close())
 		os.Exit(0)
 	}()
-	return redis.Serve(addr, func(conn *redis.Conn, cmd redis.Command) {
-		c := GetCommand(cmd.Name)
-		c(n, conn, cmd)
+	return redis.Serve(addr, n.handleCommand)
+}
+
+// handleCommand runs one command of a connection. A panic that escapes the handler
+// (argument indexing before execCommand, non-error panic values) is answered with an
+// error instead of killing the server process.
+func (n *Nodis) handleCommand(conn *redis.Conn, cmd redis.Command) {
+	defer func() {
+		if r := recover(); r != nil {
+			log.Println("Recovered error: ", r)
+			conn.WriteError("ERR " + fmt.Sprint(r))
+		}
 		if conn.HasError() && conn.State != 0 {
 			conn.State |= redis.MultiError
 		}
-	})
+	}()
+	c := GetCommand(cmd.Name)
+	c(n, conn, cmd)
 }
 
 func (n *Nodis) exec(fn func(tx *Tx) error) error {
